@@ -54,3 +54,27 @@ def ble : Bytes → Bytes → Bool
 def blt (a b : Bytes) : Bool := ble a b && !(a == b)
 
 end WebPkg
+
+namespace WebPkg
+/-- result of a reader model: value, error, or "outside the modelled domain" (e.g. Unicode case
+    mapping of non-ASCII header names, which the model does not reproduce) -/
+inductive Res (α : Type) where
+  | ok (a : α)
+  | err
+  | ood
+  deriving Repr, DecidableEq
+
+namespace Res
+def bind {α β} (o : Res α) (f : α → Res β) : Res β :=
+  match o with
+  | .ok a => f a
+  | .err => .err
+  | .ood => .ood
+instance : Monad Res where
+  pure := .ok
+  bind := Res.bind
+def ofOption {α} : Option α → Res α
+  | some a => .ok a
+  | none => .err
+end Res
+end WebPkg
